@@ -132,3 +132,36 @@ impl Shared {
         v
     }
 }
+
+pub mod planner {
+    pub mod rules {
+        pub mod range {
+            use std::ops::Bound;
+
+            /// FLAG C13-R5: inclusivity discarded before the comparison
+            pub fn covers_merged(v: &i64, start: &Bound<i64>) -> bool {
+                match start {
+                    Bound::Included(s) | Bound::Excluded(s) => v >= s,
+                    Bound::Unbounded => true,
+                }
+            }
+
+            /// ok: the two kinds of bound are compared differently
+            pub fn covers_exact(v: &i64, start: &Bound<i64>) -> bool {
+                match start {
+                    Bound::Included(s) => v >= s,
+                    Bound::Excluded(s) => v > s,
+                    Bound::Unbounded => true,
+                }
+            }
+
+            /// ok: merged arm, but only asks whether there is a bound
+            pub fn is_bounded(start: &Bound<i64>) -> bool {
+                match start {
+                    Bound::Included(_) | Bound::Excluded(_) => true,
+                    Bound::Unbounded => false,
+                }
+            }
+        }
+    }
+}
